@@ -194,10 +194,12 @@ def _canon_value(r) -> str:
     import numpy
     if isinstance(r, numpy.ndarray):
         if r.shape != (1,):
-            raise AssertionError(f"unexpected shape {r.shape}")
+            return f"NONVALUE:shape{r.shape}".replace(" ", "")
         r = r[0]
     if isinstance(r, (bool, numpy.bool_)):
-        raise AssertionError("unexpected boolean result")
+        return "NONVALUE:bool"
+    if not isinstance(r, (int, float, numpy.integer, numpy.floating)):
+        return "NONVALUE:" + type(r).__name__      # e.g. None: a request must return a value or raise
     if isinstance(r, (int, numpy.integer)):
         return str(int(r))
     return _fmt_frac(Fraction(float(r)))
@@ -215,25 +217,34 @@ def impl(case: Case) -> str:
         sim.memory_config = experimental.MemoryConfig(max_memory_occupation=1, variables_to_drop=[name])
     p = 1.5 if c["period"] is None else _real_period(c["period"])   # a float is not a valid period argument
     req = c["req"]
-    try:
+
+    def once():
         if req == "plain":
-            r = sim.calculate(name, p)
-        elif req == "add":
-            r = sim.calculate_add(name, p)
-        elif req == "div":
-            r = sim.calculate_divide(name, p)
-        else:
-            opts = None if c["opts"] is None else [sysm["optmap"].get(t, t) for t in c["opts"]]
-            if req == "pop":
-                r = sim.persons(name, p, options=opts)
-            else:
-                _CALL[0] = (name, p, opts)
-                _CAPTURE[0] = None
-                sim.calculate("caller", "2000-01")
-                r = _CAPTURE[0]
+            return sim.calculate(name, p)
+        if req == "add":
+            return sim.calculate_add(name, p)
+        if req == "div":
+            return sim.calculate_divide(name, p)
+        opts = None if c["opts"] is None else [sysm["optmap"].get(t, t) for t in c["opts"]]
+        if req == "pop":
+            return sim.persons(name, p, options=opts)
+        _CALL[0] = (name, p, opts)
+        _CAPTURE[0] = None
+        sim.delete_arrays("caller")            # the caller is eternal: forget it so that its formula runs
+        sim.calculate("caller", "2000-01")
+        return _CAPTURE[0]
+
+    try:
+        first = _canon_value(once())           # canonicalised before the repeat: the array may be shared
     except IMPL_ERRORS:
         return "ERR"
-    return _canon_value(r)
+    # the statement holds for every request, not only the first one on a simulation: the same
+    # request repeated on the same simulation (values now cached) must give the same answer
+    try:
+        again = _canon_value(once())
+    except IMPL_ERRORS:
+        again = "ERR"
+    return first if again == first else f"{first}#REPEAT:{again}"
 
 
 def _parse_frac(s):
@@ -353,6 +364,11 @@ def oracle(case: Case, out: str):
         return None
     mode = effective_mode(c)
     du, kind = c["du"], c["kind"]
+    if "#REPEAT:" in out:
+        a, b = out.split("#REPEAT:")
+        return ("repeat-differs", f"the same request on the same simulation returned {a}, then {b}")
+    if out.startswith("NONVALUE:") and mode in ("plain", "add", "div", "both", "unknown"):
+        return ("no-value-no-error", f"the request returned {out[9:]} instead of a value or an error")
     if mode == "both":
         return None if out == "ERR" else ("both-options-accepted", f"ADD and DIVIDE together returned {out}")
     if mode == "unknown":
